@@ -957,6 +957,16 @@ func (la *LockAnalysis) contentWrites(f *ssa.Function, load *ssa.UnOp, fld *type
 				if y.X == v {
 					visit(y, d+1)
 				}
+			case *ssa.Range:
+				// iterating a map reads its contents for the whole loop: the lock must be held where the
+				// iteration starts (copying the map value under the lock copies a reference, not the map)
+				if _, isMap := fld.Type().Underlying().(*types.Map); isMap && y.X == v {
+					la.Accesses = append(la.Accesses, Access{Field: fld, Owner: owner, Write: false, Fn: f, Pos: y.Pos(), Held: h, Fresh: fresh})
+				}
+			case *ssa.Lookup:
+				if _, isMap := fld.Type().Underlying().(*types.Map); isMap && y.X == v {
+					la.Accesses = append(la.Accesses, Access{Field: fld, Owner: owner, Write: false, Fn: f, Pos: y.Pos(), Held: h, Fresh: fresh})
+				}
 			case ssa.CallInstruction:
 				if b, ok := y.Common().Value.(*ssa.Builtin); ok {
 					switch b.Name() {
